@@ -28,7 +28,8 @@ from vp.fakes import ScriptSocket
 from props import c07 as S7
 
 ASSUMPTIONS = [
-    'Server built by SmtpEdge with auth=False and context=None: AUTH and STARTTLS are unknown commands (AUTH answers and the TLS channel swap are C08)',
+    'Server built by SmtpEdge with auth=False (AUTH is an unknown command); context=None, or a fake context whose handshake fails (STARTTLS offered): the channel swap after a successful handshake is C08',
+    'STARTTLS sessions use a subclass of the real SmtpSession that adds the documented Server hook handlers.STARTTLS(reply, extensions) with a scripted verdict',
     'handlers object is the real slimta.edge.smtp.SmtpSession; validators decide per command line read (keep / set a code / raise); queue results ok or QueueError with a reply',
     'the socket is a list of non-empty recv() results followed by end of file; no timeouts fire (C14)',
     'the code under test includes fixes/d13-size-limit-drain.diff (model mirrors the repaired DataReader); on a tree without it the check reports the D13 inputs as VIOLATION',
@@ -455,7 +456,8 @@ def expected_clean(case):
             tr.append(('call', S7.K_HELO if helo else S7.K_EHLO, m.group(2), (), 250))
             greeted = True
             if helo:
-                offered = False          # Extensions.reset()
+                offered = False          # Extensions.reset(): STARTTLS and SIZE are gone
+                mx = None
             i += 1
         elif w.startswith(b'STARTTLS'):
             i += 1
@@ -605,13 +607,19 @@ def check_stream(ctx, case, kind, every_cut_upto=60, nrandom=3, model_all=True):
             elif len(got_reps) > len(want_reps):
                 base_key, what = 'content-executed-as-commands', 'the server sent %d replies where the stream holds %d commands: body lines were answered as commands (replies %r, expected %r)' % (len(got_reps), len(want_reps), got_reps, want_reps)
             elif want_after - got_after or len(got_reps) < len(want_reps):
-                base_key, what = 'commands-swallowed', 'commands behind the end-of-data line never reached the command parser: missing %r; replies %r, expected %r' % (
+                base_key, what = 'commands-swallowed', 'commands pipelined behind a message (or behind a STARTTLS that led to no handshake) never reached the command parser: missing %r; replies %r, expected %r' % (
                     sorted(want_after - got_after), got_reps, want_reps)
             elif [e[4] for e in r['trace'] if e[0] == 'call' and e[1] == S7.K_HAVE] != [e[4] for e in want_tr if e[0] == 'call' and e[1] == S7.K_HAVE]:
                 base_key = 'limit-decision-depends-on-buffering'
                 what = 'the size limit %r was applied to something else than the message: content callbacks answered %r, by the message sizes %r it must be %r' % (
                     case['mx'], [e[4] for e in r['trace'] if e[0] == 'call' and e[1] == S7.K_HAVE], [m['wire_len'] for m in case['msgs']],
                     [e[4] for e in want_tr if e[0] == 'call' and e[1] == S7.K_HAVE])
+            elif [e[2] for e in r['trace'] if e[0] == 'call' and e[1] == S7.K_HAVE] != [e[2] for e in want_tr if e[0] == 'call' and e[1] == S7.K_HAVE]:
+                g = [e[2] for e in r['trace'] if e[0] == 'call' and e[1] == S7.K_HAVE]
+                w = [e[2] for e in want_tr if e[0] == 'call' and e[1] == S7.K_HAVE]
+                d = [(len(a), len(b)) for a, b in zip(g, w) if a != b]
+                base_key, what = 'content-altered', 'the message content handed to HAVE_DATA is not the content the client sent (lengths got/sent %r): %r' % (
+                    d, [short(a[-60:]) for a, b in zip(g, w) if a != b][:2])
             else:
                 base_key, what = 'unexpected-behaviour', 'replies/callbacks differ from the protocol reading: replies %r expected %r' % (got_reps, want_reps)
             ctx.fail(key_for(case, base_key), case_json(case, name),
@@ -844,7 +852,7 @@ def short_sessions():
 
 
 # ---------------------------------------------------------------- long lines at receive-buffer boundaries
-def gen_longline(L, delta, cont, mx):
+def gen_longline(L, delta, cont, mx, density='full'):
     """A session whose first message has ONE text line of L-delta bytes of 'X' that ends in '.' (cont='dot') or in
     '.text ...' (cont='dottext'), followed by pipelined RSET / MAIL / RCPT / DATA / second message / QUIT.
     Segmentations: line by line (reference), one burst, fixed read sizes, and two-piece cuts within +-3 bytes of
@@ -859,19 +867,26 @@ def gen_longline(L, delta, cont, mx):
     start = stream.index(b'X' * min(n, 16)) if n else stream.index(tail)
     dot = start + n
     eod = stream.index(b'\r\n.\r\n', dot) + 2
+    # (the code under test scans an LF-free piece quadratically - regex .*\n from every offset - about 8 ms per
+    #  4096-byte piece: the number of sessions per stream is what the time budget allows)
     cuts = set()
-    for base in (start, 0):
+    nmarks = (dot + 3 - start) // 4096
+    for base, spread in ((start, 3), (0, 3 if density == 'full' else 1)):
         k = 1
         while base + 4096 * k <= dot + 3:
-            for d in range(-3, 4):
-                cuts.add(base + 4096 * k + d)
+            if density == 'full' or k <= 2 or (base == start and k >= nmarks - 1):
+                for d in range(-spread, spread + 1):
+                    cuts.add(base + 4096 * k + d)
             k += 1
     for q in (dot - 1, dot, dot + 1, dot + len(tail), eod, eod + 1, eod + 3):
         cuts.add(q)
     cuts = sorted(c for c in cuts if 0 < c < len(stream))
     segs = [('lines',), ('whole',), ('fixed', 1000), ('fixed', 4095), ('fixed', 4096), ('fixed', 4097)]
-    if L <= 8192:
+    if L <= 8192 and density == 'full':
         segs.append(('bytes',))
+    if density == 'sample':          # the 64 KiB line in the quick tier
+        segs = [('lines',), ('whole',), ('fixed', 1000)]
+        cuts = [dot - 1, dot, dot + 1, start + 4096 * nmarks, start + 4096 * nmarks + 1, eod]
     segs += [('cuts', [c]) for c in cuts]
     return dict(stream=stream, mx=mx, vb=KEEP, envs=[], profile='clean', end='quit', roles=[], segs=segs,
                 gen=dict(kind='longline', L=L, delta=delta, cont=cont, max_size=mx),
@@ -880,18 +895,21 @@ def gen_longline(L, delta, cont, mx):
 
 def longline_cases(quick):
     C = []
-    for L in (4096, 8192, 65536):
-        big = L == 65536
-        deltas = (0, 1) if (big and quick) else (-2, -1, 0, 1, 2, 3)
-        for delta in deltas:
+    if quick:
+        for delta, cont in ((-1, 'dot'), (0, 'dot')):
+            C.append(gen_longline(4096, delta, cont, None, 'lite'))
+        for delta, cont, mx in ((0, 'dot', None), (1, 'dottext', None), (3, 'dot', 3000), (2, 'dottext', None)):
+            C.append(gen_longline(8192, delta, cont, mx, 'lite'))
+        C.append(gen_longline(65536, 0, 'dot', None, 'sample'))
+        return C
+    for L in (4096, 8192):
+        for delta in (-2, -1, 0, 1, 2, 3):
             for cont in ('dot', 'dottext'):
-                for mx in ((None,) if big and quick else (None, 3000)):
-                    c = gen_longline(L, delta, cont, mx)
-                    if big and quick:        # a sample of the marks: first two, last two, the dots
-                        cs = [x for x in c['segs'] if x[0] == 'cuts']
-                        keep = cs[:14] + cs[-21:]
-                        c['segs'] = [x for x in c['segs'] if x[0] != 'cuts'] + keep
-                    C.append(c)
+                for mx in (None, 3000):
+                    C.append(gen_longline(L, delta, cont, mx, 'full'))
+    for delta in (0, 1, 2, 3):
+        for cont in ('dot', 'dottext'):
+            C.append(gen_longline(65536, delta, cont, None, 'lite'))
     return C
 
 
@@ -1032,8 +1050,8 @@ def replay(ctx, case):
     if c.get('gen'):
         g = c['gen']
         stream = gen_longline(g['L'], g['delta'], g['cont'], g['max_size'])['stream']
-        print('generated stream: one body line of %d-%d bytes of "X" ending in %s, then RSET / second message / QUIT' % (
-            g['L'], g['delta'], '".CRLF"' if g['cont'] == 'dot' else '".text...CRLF"'))
+        print('generated stream: one body line of %d bytes of "X" (L=%d, delta=%d) ending in %s, then RSET / second message / QUIT' % (
+            g['L'] - g['delta'], g['L'], g['delta'], '".CRLF"' if g['cont'] == 'dot' else '".text...CRLF"'))
     else:
         stream = un(c['stream'])
     kc = dict(mx=c['max_size'], vb=c.get('banner_verdict', KEEP), envs=envs, ctx=bool(c.get('context')))
